@@ -29,6 +29,7 @@ import tr_fromjson  # noqa: E402
 import c09_oracle as O  # noqa: E402
 
 LEVEL = "proof"
+TOL_B = 1e-5
 PROPS = "TTProofs/Props/C09.lean"
 PROPS_MASTER = "TTProofs/Props/C09_Master.lean"
 GEN = "TTGen/C09_Options.lean"
@@ -41,11 +42,50 @@ def T():
         import torch
 
         torch.set_num_threads(2)
-        torch.set_default_dtype(torch.float64)
+        # imported under torch's own default (float32), as a user would: default arguments such as `rho=torch.zeros(1)` are
+        # evaluated at import time
         from torchtree.evolution import bdsk, birth_death
 
+        torch.set_default_dtype(torch.float64)
         _T.update(torch=torch, bdsk=bdsk, bd=birth_death)
     return _T
+
+
+# ---------------------------------------------------------------------------- dtype regimes
+# "f64": default dtype float64, float64 inputs (the regime every oracle and the Lean Float model speak about)
+# "A"  : default dtype float32 (torch's and torchtree's own default), float64 inputs: the result must be float64 and as
+#        accurate as in "f64" (rel 1e-10) — anything allocated inside without a dtype silently rounds to single
+# "B"  : default dtype float64, float32 inputs: the result must be float32 and agree with the model to single precision
+_REG = {"name": "f64"}
+REGIME_TEXT = {"f64": "default dtype float64, float64 inputs", "A": "default dtype float32, float64 inputs",
+               "B": "default dtype float64, float32 inputs"}
+
+
+class regime:
+    def __init__(self, name):
+        self.name = name
+
+    def __enter__(self):
+        torch = T()["torch"]
+        _REG["name"] = self.name
+        torch.set_default_dtype(torch.float32 if self.name == "A" else torch.float64)
+        return self
+
+    def __exit__(self, *exc):
+        torch = T()["torch"]
+        _REG["name"] = "f64"
+        torch.set_default_dtype(torch.float64)
+        return False
+
+
+def in_dtype():
+    torch = T()["torch"]
+    return torch.float32 if _REG["name"] == "B" else torch.float64
+
+
+def TT(v):
+    """an input tensor in the dtype of the current regime"""
+    return T()["torch"].tensor(v, dtype=in_dtype())
 
 
 # ============================================================================ cases
@@ -97,7 +137,7 @@ def gen_case(rng, max_m=8, n_max=7, allow=("r", "rhomid", "coincide", "modes")):
     r = [rng.choice([0.0, 0.5, 1.0]) for _ in range(m)] if ("r" in allow and rng.random() < 0.3) else None
     return {"lam": lam, "mu": mu, "psi": psi, "rho": rho, "times": times, "r": r, "survival": rng.random() < 0.5,
             "tips": tips, "ints": ints, "tree": tree, "mode": mode, "root_edge": mode == "given" and rng.random() < 0.2,
-            "short_rho": not any(rho[:-1]) and rng.random() < 0.5}
+            "short_rho": not any(rho[:-1]) and rng.random() < 0.5, "no_rho": not any(rho) and rng.random() < 0.5}
 
 
 def features(c):
@@ -138,7 +178,7 @@ def impl_dist(c):
     t = T()
     torch, bdsk = t["torch"], t["bdsk"]
     m = len(c["lam"])
-    tt = lambda v: torch.tensor(v, dtype=torch.float64)  # noqa: E731
+    tt = TT
     T_ = c["times"][-1]
     root = c["ints"][-1]
     origin = tt([T_ - root]) if c["root_edge"] else tt([T_])
@@ -149,30 +189,35 @@ def impl_dist(c):
         kw["times"] = tt([x / T_ for x in c["times"][:-1]])
         kw["relative_times"] = True
     rho = c["rho"][-1:] if c["short_rho"] else c["rho"]
-    inputs = {"lambda_": tt(c["lam"]), "mu": tt(c["mu"]), "psi": tt(c["psi"]), "rho": tt(rho), "origin": origin}
+    inputs = {"lambda_": tt(c["lam"]), "mu": tt(c["mu"]), "psi": tt(c["psi"]), "origin": origin}
+    if not (c.get("no_rho") and not any(c["rho"])):
+        inputs["rho"] = kw["rho"] = tt(rho)  # else: the constructor's own default `rho=torch.zeros(1)`
     if c["r"] is not None:
         inputs["removal_probability"] = tt(c["r"])
     if "times" in kw:
         inputs["times"] = kw["times"]
     d = bdsk.PiecewiseConstantBirthDeath(
-        inputs["lambda_"], inputs["mu"], inputs["psi"], rho=inputs["rho"], origin=origin, origin_is_root_edge=c["root_edge"],
+        inputs["lambda_"], inputs["mu"], inputs["psi"], origin=origin, origin_is_root_edge=c["root_edge"],
         survival=c["survival"], removal_probability=inputs.get("removal_probability"), **kw)
     d._c09_inputs = inputs
     return d
 
 
 def impl_value(c):
-    """-> ('ok', float) | ('vector', shape) | ('raise', 'Type: msg')"""
+    """-> ('ok', float) | ('vector', shape) | ('raise', 'Type: msg') | ('dtype', msg) | ('mutated', msg) | ('unstable', msg),
+    in the current dtype regime"""
     torch = T()["torch"]
     try:
         d = impl_dist(c)
-        heights = torch.tensor(c["tips"] + c["ints"], dtype=torch.float64)
+        heights = TT(c["tips"] + c["ints"])
         supplied = {k: t_.clone() for k, t_ in d._c09_inputs.items()}
         supplied["node_heights"] = heights.clone()
         held = dict(d._c09_inputs, node_heights=heights)
         v = d.log_prob(heights)
         if v.dim() != 0 and v.numel() != 1:
             return "vector", list(v.shape)
+        if v.dtype != in_dtype():
+            return "dtype", f"the inputs are {in_dtype()}, the result is {v.dtype}"
         v1 = float(v.reshape(()).item())
         # the evaluation must not write into what it was given …
         for k, t_ in held.items():
@@ -206,14 +251,14 @@ def effective_times(c):
     torch = T()["torch"]
     m = len(c["lam"])
     T_ = c["times"][-1]
-    tt = lambda v: torch.tensor(v, dtype=torch.float64)  # noqa: E731
+    tt = TT
     if c["root_edge"]:
         origin = tt([T_ - c["ints"][-1]]) + tt(c["ints"][-1:])
     else:
         origin = tt([T_])
     if c["mode"] == "none" or m == 1:
         dt = (origin / m).expand((m,))
-        return torch.cat((torch.zeros(1, dtype=torch.float64), dt), -1).cumsum(-1).tolist()
+        return torch.cat((torch.zeros(1, dtype=in_dtype()), dt), -1).cumsum(-1).tolist()
     if c["mode"] == "relative":
         return torch.cat((tt([x / T_ for x in c["times"][:-1]]) * origin, origin), -1).tolist()
     return torch.cat((tt(c["times"][:-1]), origin), -1).tolist()
@@ -243,12 +288,12 @@ def torch_discrete(c, times):
     """the discrete quantities recomputed with the torch calls the (fixed) code uses"""
     torch = T()["torch"]
     m = len(c["lam"])
-    t = torch.tensor(times, dtype=torch.float64)
-    x = t[-1:] - torch.tensor(c["ints"], dtype=torch.float64)
-    y = t[-1:] - torch.tensor(c["tips"], dtype=torch.float64)
+    t = TT(times)
+    x = t[-1:] - TT(c["ints"])
+    y = t[-1:] - TT(c["tips"])
     ix = (torch.searchsorted(t, x, right=True) - 1).tolist()
     iy = torch.clamp(torch.searchsorted(t, y, right=False) - 1, min=0, max=m - 1)
-    rho = torch.tensor(c["rho"], dtype=torch.float64)
+    rho = TT(c["rho"])
     rt = (torch.sum(t.unsqueeze(-2) == y.unsqueeze(-1), -1) * rho.gather(-1, iy) > 0).long().tolist()
     n = ((torch.sum(x.unsqueeze(-2) < t[1:].unsqueeze(-1), -1) - torch.sum(y.unsqueeze(-2) <= t[1:].unsqueeze(-1), -1))[:-1] + 1).tolist()
     N = torch.sum(t[1:].unsqueeze(-2) == y.unsqueeze(-1), -2).tolist()
@@ -264,7 +309,9 @@ def close(a, b, rel=1e-10):
 
 
 def slim(c):
-    return {k: c[k] for k in ("lam", "mu", "psi", "rho", "times", "r", "survival", "tips", "ints", "mode", "root_edge", "short_rho", "tree")}
+    d = {k: c[k] for k in ("lam", "mu", "psi", "rho", "times", "r", "survival", "tips", "ints", "mode", "root_edge", "short_rho", "tree")}
+    d["no_rho"] = bool(c.get("no_rho"))
+    return d
 
 
 # ============================================================================ model builders through JSON
@@ -284,11 +331,17 @@ def tree_json(c):
     nwk, tips = to_newick(c["tree"], names)
     youngest = 0.0
     dates = {nm: youngest - age for nm, age in tips}  # date = -age (heights are max(date) - date)
-    return TimeTreeModel.json_factory("tree", nwk + ";", c["ints"], dates, internal_heights_id="tree.heights")
+    tj = TimeTreeModel.json_factory("tree", nwk + ";", c["ints"], dates, internal_heights_id="tree.heights")
+    if _REG["name"] != "f64":
+        tj["internal_heights"]["dtype"] = str(in_dtype())
+    return tj
 
 
 def P(id_, values):
-    return {"id": id_, "type": "Parameter", "tensor": values}
+    d = {"id": id_, "type": "Parameter", "tensor": values}
+    if _REG["name"] != "f64":
+        d["dtype"] = str(in_dtype())  # declared explicitly: the default dtype must not matter
+    return d
 
 
 def bdsk_json(c, times_as="parameter"):
@@ -313,6 +366,71 @@ def build(spec):
 
     dic = {}
     return process_object(spec, dic), dic
+
+
+# ============================================================================ tensor constructors without a dtype
+CTORS = ("ones", "zeros", "tensor", "arange", "full", "eye", "empty", "linspace", "as_tensor", "ones_like", "zeros_like", "full_like")
+REACHABLE = ("_call", "__init__", "from_json", "log_p", "log_q", "log_prob", "epidemiology_to_birth_death", "_sample_shape")
+# (class.function, constructor) -> the bucket of cases (regime A: default float32, float64 inputs) that goes through it
+COVER = {
+    ("BDSKModel._call", "zeros"): "BDSKModel/dtype-A:no-rho",
+    ("BDSKModel.from_json", "tensor"): "BDSKModel/dtype-A:list",
+    ("PiecewiseConstantBirthDeath.__init__", "zeros"): "dtype-A/default-rho",
+    ("PiecewiseConstantBirthDeath.log_prob", "tensor"): "dtype-A/removal",
+    ("PiecewiseConstantBirthDeath.log_p", "ones"): "dtype-A/several-epochs",
+    ("PiecewiseConstantBirthDeath.log_p", "zeros"): "dtype-A/several-epochs",
+    ("PiecewiseConstantBirthDeath.log_prob", "zeros"): "dtype-A/several-epochs",
+    ("PiecewiseConstantBirthDeath.log_prob", "ones"): "dtype-A/several-epochs",
+    ("BirthDeathModel._call", "zeros"): "BirthDeathModel/dtype-A:empty-rho",
+    ("BirthDeath.log_prob", "ones"): "BirthDeathModel/dtype-A:",
+    ("BirthDeath.log_prob", "zeros"): "BirthDeathModel/dtype-A:",
+    ("BirthDeath.log_prob", "tensor"): "BirthDeathModel/dtype-A:",
+}
+
+
+def constructor_scan():
+    """every torch tensor constructor in bdsk.py / birth_death.py: where, and whether it names a dtype"""
+    import ast
+
+    rows = []
+    for rel in ("torchtree/evolution/bdsk.py", "torchtree/evolution/birth_death.py"):
+        tree = ast.parse((Path(REPO) / rel).read_text())
+
+        def walk(node, stack):
+            for ch in ast.iter_child_nodes(node):
+                st = stack + [ch.name] if isinstance(ch, (ast.FunctionDef, ast.ClassDef)) else stack
+                if (isinstance(ch, ast.Call) and isinstance(ch.func, ast.Attribute) and isinstance(ch.func.value, ast.Name)
+                        and ch.func.value.id == "torch" and ch.func.attr in CTORS):
+                    kws = {k.arg for k in ch.keywords}
+                    fn = ch.func.attr
+                    if "dtype" in kws or None in kws:
+                        kind = "dtype given"
+                    elif fn.endswith("_like"):
+                        kind = "inherits (…_like)"
+                    elif fn == "arange" and all(isinstance(a, (ast.Constant, ast.BinOp, ast.UnaryOp, ast.Name)) for a in ch.args):
+                        kind = "integer index (arange)"
+                    else:
+                        kind = "NO DTYPE"
+                    # a default argument is evaluated at import time, inside the `def`'s signature
+                    rows.append({"file": rel, "line": ch.lineno, "where": ".".join(st), "call": ast.unparse(ch)[:90], "dtype": kind,
+                                 "reachable_from_log_prob": bool(st) and st[-1] in REACHABLE,
+                                 "covered_by": COVER.get((".".join(st), fn)) if kind == "NO DTYPE" else None})
+                if isinstance(ch, ast.FunctionDef):
+                    # default values belong to the function being defined
+                    for dflt in ch.args.defaults + [d for d in ch.args.kw_defaults if d is not None]:
+                        for sub in ast.walk(dflt):
+                            if (isinstance(sub, ast.Call) and isinstance(sub.func, ast.Attribute) and isinstance(sub.func.value, ast.Name)
+                                    and sub.func.value.id == "torch" and sub.func.attr in CTORS and "dtype" not in {k.arg for k in sub.keywords}):
+                                rows.append({"file": rel, "line": sub.lineno, "where": ".".join(stack + [ch.name]), "call": ast.unparse(sub)[:90],
+                                             "dtype": "NO DTYPE", "default_argument": True, "reachable_from_log_prob": ch.name in REACHABLE,
+                                             "covered_by": COVER.get((".".join(stack + [ch.name]), sub.func.attr))})
+                    for part in ch.body:
+                        walk(ast.Module(body=[part], type_ignores=[]), st)
+                else:
+                    walk(ch, st)
+
+        walk(tree, [])
+    return rows
 
 
 # ============================================================================ run
@@ -350,17 +468,63 @@ def run(ck: Check):
     fails = []  # (sig, what, replay)
 
     def fail(sig, what, replay):
+        reg = _REG["name"]
+        if reg != "f64" and "dtype-" not in sig:
+            sig, what = f"dtype-{reg}/{sig}", f"[{REGIME_TEXT[reg]}] {what}"
         if not any(f[0] == sig for f in fails):
-            fails.append((sig, what, replay))
+            fails.append((sig, what, dict(replay, regime=replay.get("regime", reg))))
+
+    worst = ck.extra.setdefault("dtype_regimes", {"A": {"cases": 0, "worst_rel": 0.0}, "B": {"cases": 0, "skipped": 0, "worst_rel": 0.0}})
+
+    def other_regimes(c, ref, ref_text, feats, td=None):
+        """the case again with (A) default float32 / float64 inputs and (B) default float64 / float32 inputs"""
+        m = len(c["lam"])
+        part = "removal" if c["r"] is not None else ("single-epoch" if m == 1 else "several-epochs")
+        out = {}
+        for reg, tol in (("A", 1e-10), ("B", TOL_B)):
+            with regime(reg):
+                if reg == "B":
+                    # only where single precision sees the same coincidences of events and boundaries
+                    try:
+                        same = td is not None and torch_discrete(c, effective_times(c)) == td
+                    except Exception:
+                        same = False
+                    if not same:
+                        worst["B"]["skipped"] += 1
+                        continue
+                k, v = impl_value(c)
+            ck.case(None, nontrivial=False, bucket=f"dtype-{reg}/{part}")
+            if c.get("no_rho") and not any(c["rho"]):
+                ck.bucket(f"dtype-{reg}/default-rho")
+            rp = {"case": slim(c), "regime": reg, "impl": [k, v], "reference": ref}
+            if k == "dtype":
+                fail(f"bdsk:dtype-{reg}:result-dtype", f"[{REGIME_TEXT[reg]}] {v} [{', '.join(feats)}]", rp)
+            elif k != "ok":
+                fail(f"bdsk:dtype-{reg}:{k}:{part}", f"[{REGIME_TEXT[reg]}] log_prob {k}: {v}; with default dtype float64 and float64 inputs it gives {ref!r} "
+                     f"[{', '.join(feats)}]", rp)
+            else:
+                worst[reg]["cases"] += 1
+                if not (math.isnan(v) or math.isinf(v) or math.isinf(ref)):
+                    worst[reg]["worst_rel"] = max(worst[reg]["worst_rel"], abs(v - ref) / max(1.0, abs(ref)))
+                out[reg] = v
+                if not close(v, ref, tol):
+                    fail(f"bdsk:dtype-{reg}:value:{part}", f"[{REGIME_TEXT[reg]}] log_prob = {v!r}; {ref_text} = {ref!r} (rel {tol:g} allowed) "
+                         f"[{', '.join(feats)}; {m} epoch(s)]", rp)
+        return out
 
     try:
         # ---------------------------------------------------------------- generated table vs the live classes
         if drv:
             rep = drv.ask("opts")
             ck.extra["options_table"] = rep
+        th = ck.thorough()
         options_behaviour(ck, fail)
-        histories(ck, fail)
-        batches(ck, drv, fail)
+        histories(ck, fail, 30 if th else 6)
+        batches(ck, drv, fail, 80 if th else 12)
+        with regime("A"):  # the same three passes with torch's own default dtype and float64 inputs / Parameters
+            options_behaviour(ck, fail, 6 if th else 3)
+            histories(ck, fail, 12 if th else 3)
+            batches(ck, drv, fail, 30 if th else 6)
         # ---------------------------------------------------------------- epidemiology_to_birth_death, bit-exact
         if drv:
             for _ in range(40):
@@ -419,6 +583,11 @@ def run(ck: Check):
                         ck.mismatch(f"discrete part {k} (torch calls of the code) differs from the Lean model", {"case": slim(c), "torch": td[k], "model": mv[k]})
                 if idx % 7 == 0:
                     pab_check(ck, drv, c, times)
+                    with regime("A"):
+                        pab_check(ck, drv, c, times)
+                vals = other_regimes(c, mv["value"], "the Lean model in doubles", feats, td)
+            else:
+                vals = other_regimes(c, val, "with default dtype float64 and float64 inputs", feats, None)
             # ---- oracle 1: single epoch = constant-rate density
             if m == 1:
                 want = float(O.const_logdensity(c["lam"][0], c["mu"][0], c["psi"][0], c["rho"][0], c["times"][-1], c["tips"], c["ints"], c["survival"],
@@ -458,7 +627,15 @@ def run(ck: Check):
                 if k2 != "ok":
                     fail(f"bdsk:refined-fails:{tag}", f"after splitting epoch {i} (identical rates, rho = 0 at the new boundary) log_prob "
                          f"{'returns a vector' if k2 == 'vector' else 'raises ' + str(v2)} [{', '.join(f2)}]", {"case": slim(c2), "coarse": slim(c), "impl": [k2, v2]})
-                elif not close(val, v2, 1e-9):
+                elif close(val, v2, 1e-9):
+                    with regime("A"):
+                        kA, vA = impl_value(c2)
+                    cA = vals.get("A", val)  # both sides in regime A: what the split itself changes
+                    if kA != "ok" or not close(vA, cA, 1e-9):
+                        fail(f"bdsk:dtype-A:refinement:{'removal' if c['r'] is not None else 'plain'}", f"[{REGIME_TEXT['A']}] after splitting epoch {i} at "
+                             f"{c2['times'][i + 1]} (identical rates, rho = 0 there) log_prob is {vA!r}; the unsplit grid gives {cA!r}",
+                             {"case": slim(c2), "coarse": slim(c), "regime": "A", "impl": [kA, vA], "coarse_value": cA})
+                else:
                     fail(f"bdsk:refinement:{tag}", f"splitting epoch {i} at {c2['times'][i + 1]} (identical rates, rho = 0 there) changes log_prob "
                          f"from {val!r} to {v2!r} [{', '.join(f2)}]", {"case": slim(c2), "coarse": slim(c), "impl": v2, "coarse_value": val})
             # ---- oracle 3 (exploration): master equations
@@ -475,11 +652,29 @@ def run(ck: Check):
                         fail(f"bdsk:master-equations:{feats[0]}", f"log_prob = {val - off!r} but RK4 integration of the birth–death master "
                              f"equations along the tree gives {rk!r} [{', '.join(feats)}]", dict(replay, impl=val - off, rk4=rk))
             # ---- the models built through from_json
-            if idx % 5 == 0 and c["r"] is None and not c["root_edge"] and c["mode"] != "none":
+            if (idx % 5 == 0 or (m == 1 and not any(c["rho"]))) and c["r"] is None and not c["root_edge"] and c["mode"] != "none":
                 json_models(ck, c, val, fail, drv)
+                for reg in ("A", "B"):
+                    if reg == "B" and "B" not in vals:
+                        continue
+                    with regime(reg):
+                        json_models(ck, c, val, fail, drv)
     finally:
         if drv:
             drv.close()
+    # ---------------------------------------------------------------- constructors without a dtype, and the cases through them
+    scan = constructor_scan()
+    ck.extra["tensor_constructors"] = scan
+    missing = [r for r in scan if r["dtype"] == "NO DTYPE"]
+    ck.extra["constructors_without_dtype"] = [f"{r['file']}:{r['line']} {r['where']}: {r['call']}" for r in missing]
+    for r in missing:
+        if not r["reachable_from_log_prob"]:
+            continue
+        n = sum(v for k, v in ck.dist.items() if r["covered_by"] and k.startswith(r["covered_by"]))
+        r["cases_through_it"] = n
+        if n == 0:
+            ck.notes.append(f"constructor without dtype reachable from log_prob and not exercised in the float32-default regime: "
+                            f"{r['file']}:{r['line']} {r['call']}")
     for sig, what, replay in fails:
         ck.violation(sig, what, dict(replay, broken_obligations=broken, replay_cmd="./check C09 --replay <this file>"))
     if not fails and (not ok or ck.mismatches):
@@ -500,9 +695,9 @@ def pab_check(ck, drv, c, times):
     torch = T()["torch"]
     m = len(c["lam"])
     try:
-        d = impl_dist(dict(c, short_rho=False))
-        t = torch.tensor(times, dtype=torch.float64)
-        p, A, B = d.log_p(t[1:], t[:-1], torch.tensor(c["rho"], dtype=torch.float64))
+        d = impl_dist(dict(c, short_rho=False, no_rho=False))
+        t = TT(times)
+        p, A, B = d.log_p(t[1:], t[:-1], TT(c["rho"]))
     except Exception as e:
         ck.mismatch("log_p raises", {"case": slim(c), "error": repr(e)})
         return
@@ -518,32 +713,68 @@ def pab_check(ck, drv, c, times):
 
 
 def json_models(ck, c, direct_value, fail, drv=None):
-    """BDSKModel / BirthDeathModel built by from_json must give the value of the distribution built directly"""
+    """BDSKModel / BirthDeathModel built by from_json must give the value of the distribution built directly (in the current
+    dtype regime the Parameters are declared with the input dtype; `direct_value` is the float64 reference)"""
     m = len(c["lam"])
-    replay = {"case": slim(c)}
-    for times_as in (("parameter", "list") if m > 1 else ("parameter",)):
+    reg = _REG["name"]
+    pre = "" if reg == "f64" else f"dtype-{reg}:"
+    txt = "" if reg == "f64" else f"[{REGIME_TEXT[reg]}; Parameters declared {in_dtype()}] "
+    tol = TOL_B if reg == "B" else 1e-9
+    want_dtype = in_dtype()
+    replay = {"case": slim(c), "regime": reg}
+    variants = [("parameter", bdsk_json(c, "parameter"))]
+    if m > 1:
+        variants.append(("list", bdsk_json(c, "list")))
+    if not any(c["rho"]):
+        sp = bdsk_json(c, "parameter")
+        del sp["rho"]  # BDSKModel then supplies `torch.zeros(1)` itself
+        variants.append(("no-rho", sp))
+    for times_as, spec in variants:
         try:
-            model, _ = build(bdsk_json(c, times_as))
-            v = float(model().reshape(()).item())
+            model, _ = build(spec)
+            res = model()
+            v = float(res.reshape(()).item())
         except Exception as e:
-            fail(f"BDSKModel:raises:{'times-as-list' if times_as == 'list' else ('relative-times' if c['mode'] == 'relative' else 'plain')}:{type(e).__name__}",
-                 f"BDSKModel built from JSON ({'times given as a list' if times_as == 'list' else 'times given as a Parameter'}"
-                 f"{', relative_times' if c['mode'] == 'relative' else ''}) raises {type(e).__name__}: {str(e)[:120]}",
-                 dict(replay, spec=bdsk_json(c, times_as)))
+            fail(f"BDSKModel:{pre}raises:{'times-as-list' if times_as == 'list' else ('relative-times' if c['mode'] == 'relative' else 'plain')}:{type(e).__name__}",
+                 f"{txt}BDSKModel built from JSON ({'times given as a list' if times_as == 'list' else 'times given as a Parameter'}"
+                 f"{', relative_times' if c['mode'] == 'relative' else ''}{', no rho' if times_as == 'no-rho' else ''}) raises {type(e).__name__}: {str(e)[:120]}",
+                 dict(replay, spec=spec))
             continue
-        ck.case(None, nontrivial=False, bucket="BDSKModel/" + times_as)
-        if not close(v, direct_value, 1e-9):
-            fail("BDSKModel:value", f"BDSKModel() = {v!r}, the distribution built directly gives {direct_value!r}", dict(replay, spec=bdsk_json(c, times_as)))
+        ck.case(None, nontrivial=False, bucket=f"BDSKModel/{pre}{times_as}")
+        if res.dtype != want_dtype:
+            fail(f"BDSKModel:{pre}result-dtype:{times_as}", f"{txt}BDSKModel() has dtype {res.dtype}", dict(replay, spec=spec))
+        elif not close(v, direct_value, tol):
+            fail(f"BDSKModel:{pre}value" + (":times-as-list" if times_as == "list" and pre else ""),
+                 f"{txt}BDSKModel() = {v!r}" + (" (times given as a plain list)" if times_as == "list" else "") +
+                 f", the distribution built directly {'(default float64, float64 inputs) ' if pre else ''}gives {direct_value!r}", dict(replay, spec=spec))
     if m == 1:
         spec = {"id": "bd", "type": "BirthDeathModel", "tree_model": tree_json(c), "lambda": P("l", c["lam"]), "mu": P("mu", c["mu"]),
                 "psi": P("psi", c["psi"]), "rho": P("rho", c["rho"]), "origin": P("origin", [c["times"][-1]]), "survival": c["survival"]}
+        if not any(c["rho"]):
+            # an empty rho is padded by BirthDeathModel itself (`torch.zeros(...)` without a dtype)
+            try:
+                res = build(dict(spec, rho=P("rho", [])))[0]()
+                ck.case(None, nontrivial=False, bucket=f"BirthDeathModel/{pre}empty-rho")
+                if res.dtype != want_dtype or not close(float(res.reshape(()).item()), direct_value, tol):
+                    fail(f"BirthDeathModel:{pre}empty-rho", f"{txt}BirthDeathModel with an empty rho gives {float(res.reshape(()).item())!r} of dtype {res.dtype}; with rho = [0] the density is {direct_value!r}",
+                         dict(replay, spec=dict(spec, rho=P("rho", []))))
+            except Exception as e:
+                fail(f"BirthDeathModel:{pre}empty-rho:raises:{type(e).__name__}", f"{txt}BirthDeathModel with an empty rho raises {e!r}"[:200], dict(replay, spec=spec))
         try:
             model, dic = build(spec)
-            v = float(model().reshape(()).item())
+            res = model()
+            v = float(res.reshape(()).item())
         except Exception as e:
-            fail(f"BirthDeathModel:raises:{type(e).__name__}", f"BirthDeathModel built from JSON raises {type(e).__name__}: {str(e)[:120]}", dict(replay, spec=spec))
+            fail(f"BirthDeathModel:{pre}raises:{type(e).__name__}", f"{txt}BirthDeathModel built from JSON raises {type(e).__name__}: {str(e)[:120]}", dict(replay, spec=spec))
             return
-        ck.case(None, nontrivial=False, bucket="BirthDeathModel")
+        ck.case(None, nontrivial=False, bucket=f"BirthDeathModel{'/' + pre if pre else ''}")
+        if res.dtype != want_dtype:
+            fail(f"BirthDeathModel:{pre}result-dtype", f"{txt}BirthDeathModel() has dtype {res.dtype}", dict(replay, spec=spec))
+        if pre:
+            if not close(v, direct_value, tol):
+                fail(f"BirthDeathModel:{pre}value", f"{txt}BirthDeathModel() = {v!r}; with default dtype float64 and float64 inputs the density is {direct_value!r}",
+                     dict(replay, spec=spec))
+            return
         if drv:
             ws = ["1" if c["survival"] else "0"] + [f2h(x) for x in (c["lam"][0], c["mu"][0], c["psi"][0], c["rho"][0], c["times"][-1])]
             ws += [str(len(c["tips"]))] + [f2h(x) for x in c["tips"]] + [str(len(c["ints"]))] + [f2h(x) for x in c["ints"]]
@@ -584,12 +815,12 @@ def with_removal(c, r):
     return dict(c, lam=lam, mu=mu, psi=psi, r=[r] * len(lam))
 
 
-def options_behaviour(ck, fail):
+def options_behaviour(ck, fail, trials=6):
     """every JSON option of BDSKModel selects the behaviour it names: the model built from JSON with the option equals
     the distribution built directly with that option"""
     torch = T()["torch"]
     rng = ck.rng
-    for trial in range(6):
+    for trial in range(trials):
         c = gen_case(rng, max_m=3, n_max=4, allow=("coincide",))
         c["mode"], c["root_edge"], c["short_rho"], c["r"] = "given", False, False, None
         m = len(c["lam"])
@@ -623,13 +854,13 @@ def options_behaviour(ck, fail):
                      f"the distribution built directly with {opt} gives {vd!r}", {"option": opt, "spec": spec, "case": slim(c)})
 
 
-def histories(ck, fail):
+def histories(ck, fail, trials=6):
     """live objects: build BDSKModel / BirthDeathModel once, then change ONE parameter at a time through
     Parameter.tensor and re-evaluate; every value must equal that of a model built afresh from the current values"""
     torch = T()["torch"]
     rng = ck.rng
-    tt = lambda v: torch.tensor(v, dtype=torch.float64)  # noqa: E731
-    for trial in range(6 if not ck.thorough() else 30):
+    tt = TT
+    for trial in range(trials):
         c = gen_case(rng, max_m=3, n_max=4, allow=("coincide", "rhomid"))
         c["mode"], c["root_edge"], c["short_rho"], c["r"] = "given", False, False, None
         m = len(c["lam"])
@@ -723,15 +954,15 @@ def histories(ck, fail):
                     break
 
 
-def batches(ck, drv, fail):
+def batches(ck, drv, fail, trials=12):
     """batched evaluation in which ONE sample holds a special value (rho exactly 0 or 1 at the present, equal rates across
     epochs, a boundary exactly on a sampling time, all tips contemporaneous) and the others do not: every row must equal
     the evaluation of that sample alone (implementation) and the Lean model on that slice"""
     torch = T()["torch"]
     bdsk = T()["bdsk"]
     rng = ck.rng
-    tt = lambda v: torch.tensor(v, dtype=torch.float64)  # noqa: E731
-    for trial in range(12 if not ck.thorough() else 80):
+    tt = TT
+    for trial in range(trials):
         base = gen_case(rng, max_m=4, n_max=5, allow=("rhomid",))
         if len(base["lam"]) < 2 or all(h == 0 for h in base["tips"]):
             continue
@@ -839,12 +1070,12 @@ def histories_replay(obj, out):
         # the final state is recorded; apply it parameter by parameter in the order of the history
         for nm in obj["history"]:
             st[nm] = obj["state"][nm]
-            dic[nm].tensor = torch.tensor(st[nm], dtype=torch.float64)
+            dic[nm].tensor = TT(st[nm])
             v = float(model().reshape(()).item())
             model.lp_needs_update = True
             v2 = float(model().reshape(()).item())
             for k_ in st:
-                if k_ in dic and not same_bits(dic[k_].tensor, torch.tensor(st[k_], dtype=torch.float64)):
+                if k_ in dic and not same_bits(dic[k_].tensor, TT(st[k_])):
                     out.append(f"after updating {nm}: Parameter {k_} was given {st[k_]}, now holds {dic[k_].tensor.tolist()}")
             if not (v == v2 or (math.isnan(v) and math.isnan(v2))):
                 out.append(f"after updating {nm}: the same object evaluates to {v!r} then {v2!r}")
@@ -864,13 +1095,38 @@ def replay(path: str) -> int:
         return 1
     c = _fix_tree(obj["case"])
     bad = False
+    reg = obj.get("regime", "f64")
+    if reg != "f64":
+        print(f"dtype regime {reg}: {REGIME_TEXT[reg]}")
+        if sig.startswith("bdsk:dtype-"):
+            k0, v0 = impl_value(_fix_tree(obj["coarse"]) if "coarse" in obj else c)
+            with regime(reg):
+                k1, v1 = impl_value(c)
+                kc, vc = impl_value(_fix_tree(obj["coarse"])) if "coarse" in obj else (k0, v0)
+            tol = TOL_B if reg == "B" else (1e-9 if "coarse" in obj else 1e-10)
+            print(f"default float64 / float64 inputs{' (unsplit grid)' if 'coarse' in obj else ''}: {k0} {v0!r}")
+            if "coarse" in obj:
+                print(f"regime {reg}, unsplit grid: {kc} {vc!r}")
+            print(f"regime {reg}: {k1} {v1!r}")
+            ref = vc if "coarse" in obj else v0
+            bad = k1 != "ok" or not isinstance(ref, float) or not close(v1, ref, tol)
+            print("VIOLATES" if bad else "ok")
+            return 1 if bad else 0
+        obj["_ref"] = impl_value(c)
+        with regime(reg):
+            return _replay(obj, c, sig.split("/", 1)[1] if sig.startswith("dtype-") and "/" in sig else sig)
+    return _replay(obj, c, sig)
+
+
+def _replay(obj, c, sig) -> int:
+    bad = False
     if "history" in obj or "samples" in obj:
         ck = Check("C09", "quick", 0)
         print("histories and batches are re-searched with the recorded seed stream; recorded failing input:")
         print(json.dumps({k: obj[k] for k in ("class", "history", "state", "special", "row", "batched", "alone") if k in obj})[:600])
         if "samples" in obj:
             torch, bdsk = T()["torch"], T()["bdsk"]
-            tt = lambda v: torch.tensor(v, dtype=torch.float64)  # noqa: E731
+            tt = TT
             ss = [_fix_tree(x) for x in obj["samples"]]
             singles = [impl_value(x) for x in ss]
             try:
@@ -910,7 +1166,8 @@ def replay(path: str) -> int:
                 kd, vd = impl_value(cd)
                 bad = kd == "ok" and not close(v, vd, 1e-9)
         else:
-            json_models(ck, c, impl_value(c)[1] if impl_value(c)[0] == "ok" else float("nan"), f)
+            ref = obj.get("_ref", impl_value(c))
+            json_models(ck, c, ref[1] if ref[0] == "ok" else float("nan"), f)
             for s, w in out:
                 print(("* " if s == sig else "  ") + s + " — " + w)
             bad = any(s == sig for s, _ in out)
